@@ -127,6 +127,10 @@ func vfRenderConnectError(e vfErrSpec, mal string) string {
 					typJSON = `"not a type name!"`
 				case "detail-type-number":
 					typJSON = "7"
+				case "detail-type-null":
+					typJSON = "null"
+				case "detail-value-null":
+					valJSON = "null"
 				case "detail-value-missing":
 					valJSON = ""
 				case "detail-value-padded":
@@ -151,7 +155,9 @@ func vfRenderConnectError(e vfErrSpec, mal string) string {
 			if first && mal == "detail-unknown-key" {
 				dm = append(dm, `"other":1`)
 			}
-			if d.Debug || (first && mal == "detail-debug-disagrees") {
+			if first && mal == "detail-debug-null" {
+				dm = append(dm, `"debug":null`)
+			} else if d.Debug || (first && (mal == "detail-debug-disagrees" || mal == "detail-type-null" || mal == "detail-value-null")) {
 				dbg, _ := protojson.Marshal(msg)
 				if first && mal == "detail-debug-disagrees" {
 					other := proto.Clone(msg)
@@ -345,6 +351,19 @@ func vfRenderGRPCWebTrailers(e vfErrSpec, mal string) string {
 	if mal == "status-multiple" {
 		lines = append(lines, line{"grpc-status", status})
 	}
+	if mal == "message-edge-nbsp" || mal == "message-edge-nel" {
+		// an unencoded U+00A0 / U+0085 as the last (or first) character of the message
+		m, edge := "m", map[string]string{"message-edge-nbsp": "\u00a0", "message-edge-nel": "\u0085"}[mal]
+		if msg != nil {
+			m = *msg
+		}
+		if len(m)%2 == 0 {
+			m = edge + m
+		} else {
+			m += edge
+		}
+		msg, details = &m, nil
+	}
 	if msg != nil {
 		lines = append(lines, line{"grpc-message", *msg})
 	}
@@ -376,6 +395,12 @@ func vfRenderGRPCWebTrailers(e vfErrSpec, mal string) string {
 				sb.WriteString("bad name: v" + eol)
 			case "bad-value":
 				sb.WriteString("x-bad: ctl\x01char" + eol)
+			case "cr-cr-lf":
+				sb.WriteString("x-bad: v\r" + eol)
+			case "value-lead-ff":
+				sb.WriteString("x-bad: \fv" + eol)
+			case "value-trail-vt":
+				sb.WriteString("x-bad: v\v " + eol)
 			case "blank-inside":
 				if len(lines) > 1 {
 					defer func() {}()
@@ -438,6 +463,7 @@ var vfConnectErrorMals = map[string]string{
 	"details-object": "details", "detail-type-missing": `missing required key "type"`, "detail-type-invalid": "not a valid type name",
 	"detail-type-number": "type", "detail-value-missing": `missing required key "value"`, "detail-value-padded": "not valid unpadded base64",
 	"detail-value-alphabet": "not valid unpadded base64", "dup-nested": "duplicate key", "detail-unknown-key": `invalid key "other"`,
+	"detail-type-null": `"type" is a <nil>`, "detail-value-null": `"value" is a <nil>`, "detail-debug-null": "VERIF-ANY-OR-NONE",
 	"detail-debug-disagrees": "debug data does not match value", "not-object": "connect error JSON", "null": "connect error JSON", "truncated": "connect error JSON",
 }
 
@@ -453,6 +479,9 @@ var vfTrailerBlockMals = map[string]string{
 	"lf-only": "LF line ending instead of CRLF", "no-final-crlf": "should end with CRLF", "blank-inside": "blank line", "extra-blank-end": "extra blank line",
 	"upper-key": "non-lower-case field key", "no-colon": "missing colon", "bad-name": "name contains invalid characters", "bad-value": "value contains invalid characters",
 	"obs-fold": "obsolete line-folding",
+	// malformations that sit at the edge of a value, where only space and tab may be skipped
+	"cr-cr-lf": "value contains invalid characters", "value-lead-ff": "value contains invalid characters", "value-trail-vt": "value contains invalid characters",
+	"message-edge-nbsp": "VERIF-ANY", "message-edge-nel": "VERIF-ANY",
 }
 
 var vfStatusMals = map[string]string{
@@ -555,6 +584,12 @@ func vfC13Check(c vfC13Case) error {
 		want = "HTTP trailers but should not have any"
 	}
 	joined := strings.Join(msgs, "\n")
+	if want == "VERIF-ANY-OR-NONE" {
+		return nil // (a null debug value: must not crash; whether it is reported is the examiner's choice)
+	}
+	if want == "VERIF-ANY" && len(msgs) > 0 {
+		return nil // (which of the checks names it is the examiner's choice)
+	}
 	if len(msgs) == 0 {
 		return verifkit.Violf("malformed-accepted:"+c.Form+":"+c.Mal, "%s with malformation %q (via %s) drew no feedback; error %+v", c.Form, c.Mal, c.Via, c.Err)
 	}
